@@ -71,7 +71,7 @@ impl QGramIndex {
         let text = text.into_iter();
         let ranks = RankTransform::new(alphabet);
 
-        let qgram_count = alphabet.len().pow(q);
+        let qgram_count = 1 << (q as usize * ranks.get_width());
         let mut address = vec![0; qgram_count + 1];
 
         for qgram in ranks.qgrams(q, text.clone()) {
